@@ -843,12 +843,20 @@ impl Number {
     pub fn quotient(&self, rhs: &Self) -> Option<Number> {
         match self {
             Number::Fixnum(lhs) => match rhs {
-                Number::Fixnum(rhs) => Some((lhs / rhs).into()),
+                Number::Fixnum(rhs) => Some(match i64::checked_div(*lhs, *rhs) {
+                    Some(quotient) => quotient.into(),
+                    // i64::MIN / -1 does not fit a fixnum
+                    None => (BigInt::from(*lhs) / rhs).into(),
+                }),
                 Number::BigInt(rhs) => Some((BigInt::from(*lhs) / &**rhs).into()),
                 Number::Float(rhs) => lhs.to_f64().map(|lhs| (lhs / rhs).trunc().into()),
                 Number::Rational(rhs) => {
                     if rhs.is_integer() {
-                        Some((*lhs / rhs.to_i64().unwrap()).into())
+                        let rhs = rhs.to_i64().unwrap();
+                        Some(match i64::checked_div(*lhs, rhs) {
+                            Some(quotient) => quotient.into(),
+                            None => (BigInt::from(*lhs) / rhs).into(),
+                        })
                     } else {
                         None
                     }
@@ -906,7 +914,8 @@ impl Rem for &Number {
     fn rem(self, rhs: Self) -> Self::Output {
         match self {
             Number::Fixnum(lhs) => match rhs {
-                Number::Fixnum(rhs) => Some((lhs % rhs).into()),
+                // wrapping_rem: i64::MIN % -1 is 0, not an overflow
+                Number::Fixnum(rhs) => Some(lhs.wrapping_rem(*rhs).into()),
                 Number::BigInt(rhs) => Some((BigInt::from(*lhs) % &**rhs).into()),
                 Number::Float(rhs) => Some((*lhs as f64 % rhs).into()),
                 Number::Rational(rhs) => {
